@@ -3,6 +3,7 @@
 -/
 import Yabgp.Driver.Json
 import Yabgp.Spec.RfcOpen
+import Yabgp.Spec.RfcEncode
 
 namespace Yabgp.Glue
 open Lean (Json)
@@ -35,5 +36,55 @@ def specRefOpen (j : Json) : Except String Json := do
   let bid ← getNat j "bgp_id"
   pure (obj [("hex", hex (Spec.refOpenBody asn hold bid params)),
              ("expect", openResultJson (.ok (Spec.expectOpen asn hold bid params)))])
+
+def readRefPfx (j : Json) : Except String Spec.RefPfx := do
+  let (a, l) ← parsePfxStr (← getStr j "prefix")
+  let junk ← getNat j "junk"
+  let pid := match getNat j "path_id" with
+    | .ok n => some n
+    | .error _ => none
+  pure { addr := a, len := l, junk := junk, pathId := pid }
+
+def readRefAttr (j : Json) : Except String Spec.RefAttr := do
+  let code ← getNat j "code"
+  let v ← readAttrVal code (← j.getObjVal? "value")
+  pure { code := code, val := v, ext := getBoolD j "ext" false, partialBit := getBoolD j "partial" false }
+
+/-- the reference encoder's bytes for a structured message and what C09 says decoding them must return.
+    Optional single malformation: `bad` = {kind, hex} one attribute (header and value) placed after the
+    well-formed ones; `badpfx` = hex placed after the well-formed NLRI (a length octet above 32, preceded by a
+    path identifier in add-path mode). -/
+def specRefUpdate (j : Json) : Except String Json := do
+  let asn4 := getBoolD j "asn4" false
+  let addpath := getBoolD j "addpath" false
+  let wd ← (← getArr j "withdraw").mapM readRefPfx
+  let nlri ← (← getArr j "nlri").mapM readRefPfx
+  let attrs ← (← getArr j "attrs").mapM readRefAttr
+  let valid := Spec.refValidB asn4 addpath wd attrs nlri
+  let toPfx := fun (p : Spec.RefPfx) => ({ addr := p.addr, len := p.len, pathId := p.pathId } : Pfx)
+  let w := wd.flatMap Spec.refPfx
+  let a := attrs.flatMap (Spec.refAttr asn4)
+  let n := nlri.flatMap Spec.refPfx
+  let good : UpdResult := { withdraw := wd.map toPfx, nlri := nlri.map toPfx,
+                            attr := attrs.map (fun a => (a.code, a.val)), subError := none }
+  match j.getObjVal? "bad", j.getObjVal? "badpfx" with
+  | .ok b, _ => do
+      let kind ← getStr b "kind"
+      let bad ← getHex b "hex"
+      match Spec.rejectCode kind with
+      | none => throw s!"bad kind {kind}"
+      | some s =>
+        let a' := a ++ bad
+        pure (obj [("hex", hex (be16 w.length ++ w ++ be16 a'.length ++ a' ++ n)),
+                   ("valid", Json.bool (valid && decide (a'.length < 65536))),
+                   ("expect", updResultJson (some { good with subError := some s }))])
+  | _, .ok b => do
+      let bad ← getHex b "hex"
+      pure (obj [("hex", hex (be16 w.length ++ w ++ be16 a.length ++ a ++ (n ++ bad))),
+                 ("valid", Json.bool valid),
+                 ("expect", updResultJson (some { good with nlri := [], subError := some 10 }))])
+  | _, _ =>
+      pure (obj [("hex", hex (Spec.refUpdateBody asn4 wd attrs nlri)), ("valid", Json.bool valid),
+                 ("expect", updResultJson (some good))])
 
 end Yabgp.Glue
